@@ -23,10 +23,15 @@ MCFixtureDetails(f) == CASE f = "f_tb" -> {Name("traceback", 0)}
 MCMismatchDetails(m) == CASE m = "m0" -> {}
                           [] m = "m1" -> {Name("diff", 0)}
                           [] m = "m2" -> {Name("traceback", 0), Name("Failed expectation", 0)}
+                          \* a mismatch whose own details leave a GAP in the numbering ("traceback-2" and "traceback",
+                          \* handed over in that order): with a user detail "traceback" already there the second one must
+                          \* still get a free name - a renaming rule that counts instead of probing overwrites the first
+                          [] m = "m3" -> {Name("traceback", 2), Name("traceback", 0)}
 
 KindsCore == {"fail", "err", "skip", "xfail", "uxs", "ki"}
 KindsAll == AllKinds \ {"xfaild", "uxsd"}     \* (those two only arise through the expectedFailure decorator)
 NamesNone == {}
+NamesTb == {Name("traceback", 0)}
 Kinds6 == {"fail", "err", "skip", "xfail", "ki", "custom"}
 KindsXf == {"fail", "skip", "ki", "err", "xfail"}
 KindsTriple == {"ki", "err", "skip", "fail", "xfail"}
